@@ -99,9 +99,24 @@ PollRacing(k, other) ==
        IN lastOp' = [op |-> "PollRacing", k |-> k, other |-> other, v |-> nextVal, prevwaker |-> waker,
                      expect |-> [anyOf |-> {first, second}], tag |-> "poll:racing-" \o other]
 
+(* A send / notify while waker k is registered, where the woken task runs AT ONCE: another thread polls the receiver the    *)
+(* moment wake() is called.  Send being one critical section (the value is in the channel before or when the waker is      *)
+(* called), that poll finds the value: Ready.  A Pending here is a lost wake-up (the task went back to sleep on a value     *)
+(* that is about to appear and nobody will wake it again).  Terminal.                                                       *)
+SendWokenRuns(k) ==
+    /\ ~raced /\ waker = k /\ data = <<>> /\ senders > 0 /\ nSend < MaxSends /\ nPoll < MaxPolls
+    /\ (Kind = "oneshot" => nSend = 0)
+    /\ raced' = TRUE /\ nSend' = nSend + 1 /\ nPoll' = nPoll + 1 /\ nextVal' = nextVal + 1
+    /\ data' = <<>> /\ received' = Append(received, IF Kind = "notification" THEN 1 ELSE nextVal)
+    /\ senders' = IF Kind = "oneshot" THEN 0 ELSE senders
+    /\ waker' = 0 /\ woken' = [woken EXCEPT ![k] = @ + 1]
+    /\ lastOp' = [op |-> "SendWokenRuns", k |-> k, v |-> nextVal,
+                  expect |-> [res |-> "Ready", woken |-> woken'[k]], tag |-> "send:woken-task-runs-at-once"]
+
 Emit == PrintT(<<"EDGE", ToJson([s |-> Proj, o |-> lastOp', d |-> Proj'])>>)
 Step == \/ (~raced /\ (Send \/ CloneSender \/ DropSender \/ \E k \in Wakers : Poll(k)))
         \/ \E k \in Wakers, other \in {"send", "drop"} : PollRacing(k, other)
+        \/ \E k \in Wakers : SendWokenRuns(k)
 Next == Step /\ Emit
 Spec == Init /\ [][Next]_vars
 
